@@ -347,15 +347,18 @@ class Lexer(object):
                 self.cur_token.type not in DIVISION_SYNTAX_MARKERS):
             self.prev_token_real = self.cur_token_real
             self.cur_token_real = self.cur_token
+            # an IdentifierName following a dot is a property name
+            # (11.2.1), even if it is spelled like a reserved word.
+            self.cur_token.after_period = (
+                self.prev_token_real is not None and
+                self.prev_token_real.type == 'PERIOD')
 
     def _is_property_name(self, token):
         # whether the real token is a reserved word following a dot, i.e.
         # an IdentifierName used as a property name (11.2.1).
         return (
-            token is self.cur_token_real and
             token.type in self.keywords and
-            self.prev_token_real is not None and
-            self.prev_token_real.type == 'PERIOD'
+            getattr(token, 'after_period', False)
         )
 
     def _is_prev_token_lt(self):
@@ -377,7 +380,8 @@ class Lexer(object):
                 # the parentheses are marked.  Otherwise just push
                 # into the inner marker list.
                 if (self.prev_token and
-                        self.prev_token.type in IMPLIED_BLOCK_IDENTIFIER):
+                        self.prev_token.type in IMPLIED_BLOCK_IDENTIFIER and
+                        not self._is_property_name(self.prev_token)):
                     self.token_stack.append([self.cur_token, []])
                 else:
                     self.token_stack[-1][1].append(self.cur_token)
